@@ -396,3 +396,75 @@ def precond(repo):
     res.samples = [f"{k}: handles {sorted(v)}" for k, v in helpers.items()]
     res.analysed = [m.rel]
     return res
+
+
+# --- R-LOOPACC ---------------------------------------------------------------------------------------------------
+def loopacc(repo, modules=None):
+    """R-LOOPACC (C01 and wherever generated text is assembled): a name that is initialised to an empty accumulator
+    (`""`, `[]`, `{}`, `set()`) right before a `for` loop and read after it must *accumulate* in the loop
+    (`+=`, `.append/.extend/.add/.update`, or `x = x + ...`).  A plain `x = <expression without x>` in the loop body keeps
+    only the last iteration: e.g. the `.Known() &&` guard of a parameterised field then tests only its last argument."""
+    res = RuleResult("R-LOOPACC")
+    for m in repo.modules.values():
+        if not m.rel.startswith("compiler/") or (modules is not None and m.rel not in modules):
+            continue
+        for f in m.funcs.values():
+            for blk in ast.walk(f.node):
+                for fld in ("body", "orelse", "finalbody"):
+                    stmts = getattr(blk, fld, None)
+                    if not isinstance(stmts, list):
+                        continue
+                    empties = {}
+                    for i, st in enumerate(stmts):
+                        if isinstance(st, ast.Assign) and len(st.targets) == 1 and isinstance(st.targets[0], ast.Name):
+                            v = st.value
+                            if (isinstance(v, ast.Constant) and v.value == "") or (isinstance(v, (ast.List, ast.Dict)) and not (getattr(v, "elts", None) or getattr(v, "keys", None))) \
+                                    or (isinstance(v, ast.Call) and isinstance(v.func, ast.Name) and v.func.id in ("set", "list", "dict") and not v.args):
+                                empties[st.targets[0].id] = i
+                            else:
+                                empties.pop(st.targets[0].id, None)
+                        if isinstance(st, ast.For) and empties:
+                            for name, at in list(empties.items()):
+                                plain, acc = [], False
+                                for n in ast.walk(st):
+                                    if isinstance(n, ast.Assign) and any(isinstance(t, ast.Name) and t.id == name for t in n.targets):
+                                        if any(isinstance(x, ast.Name) and x.id == name for x in ast.walk(n.value)):
+                                            acc = True
+                                        else:
+                                            plain.append(n)
+                                    if isinstance(n, ast.AugAssign) and isinstance(n.target, ast.Name) and n.target.id == name:
+                                        acc = True
+                                    if isinstance(n, ast.Call) and isinstance(n.func, ast.Attribute) and isinstance(n.func.value, ast.Name) \
+                                            and n.func.value.id == name and n.func.attr in ("append", "extend", "add", "update", "insert", "setdefault"):
+                                        acc = True
+                                    if isinstance(n, ast.Subscript) and isinstance(n.value, ast.Name) and n.value.id == name and isinstance(n.ctx, ast.Store):
+                                        acc = True
+                                if not plain and not acc:
+                                    continue
+                                res.instances += 1
+                                used_after = any(isinstance(x, ast.Name) and x.id == name and isinstance(x.ctx, ast.Load)
+                                                 for later in stmts[i + 1:] for x in ast.walk(later))
+                                # a plain assignment directly followed by `break` is a search result, not an accumulation
+                                searches = all(_followed_by_break(st, pa) for pa in plain)
+                                # only an *unconditional* overwrite (a direct statement of the loop body) is an accumulation gone
+                                # wrong; an assignment under `if` is a default-plus-found or running-best pattern
+                                plain = [pa for pa in plain if pa in st.body]
+                                if plain and not acc and used_after and not searches:
+                                    res.add(f"{m.rel}|{f.qualname}|{name}", f"{f.qualname}: `{name}` starts as an empty accumulator (line "
+                                            f"{stmts[at].lineno}) but the loop at line {st.lineno} assigns it afresh "
+                                            f"(`{ast.unparse(plain[0])[:70]}`) instead of adding to it: only the last iteration's "
+                                            "value reaches the code after the loop", m.rel, plain[0].lineno, f.qualname)
+    if res.instances < 20 and not res.findings and modules is None:
+        raise AnalysisError(f"only {res.instances} accumulator loops found in the compiler")
+    res.analysed = ["compiler/**/*.py"] if modules is None else list(modules)
+    return res
+
+
+def _followed_by_break(loop, assign):
+    for n in ast.walk(loop):
+        for fld in ("body", "orelse"):
+            b = getattr(n, fld, None)
+            if isinstance(b, list) and assign in b:
+                k = b.index(assign)
+                return any(isinstance(x, (ast.Break, ast.Return)) for x in b[k + 1:k + 3])
+    return False
